@@ -6,7 +6,8 @@ from .. import PKG
 from .. import tokenizer as T
 from ..dte import Table
 from ..model import AnalysisError
-from ..util import U, is_const, method_call, kwarg, strip_not
+from ..util import (U, is_const, method_call, kwarg, strip_not,
+                    walk_no_nested)
 from .c04 import substituted_match
 
 CHECKS = PKG + '._checks'
@@ -262,6 +263,15 @@ def check_walker(ctx, walker):
     if len(wp) != 3:
         raise AnalysisError('credential walker signature changed')
     val_p, seg_p, m_p = wp
+    for n in walk_no_nested(f.node):
+        if isinstance(n, (ast.For, ast.comprehension)) and any(
+                isinstance(x, ast.Name) and x.id == seg_p
+                for x in ast.walk(n.iter)):
+            raise AnalysisError(
+                'the credential walker %s consumes its path segments in a '
+                'loop (line %d) instead of one per recursive call: the rules '
+                'on its base case, step and list fold read the recursive '
+                'form only' % (f.qual, getattr(n, 'lineno', n.iter.lineno)))
     t = Table(prog, f)
     W = ctx.where(f.module, f.node)
 
